@@ -125,6 +125,50 @@ Attach(mem, slots, n) ==
 Image(ty, ext) == LET enc == Encode(ty, Canon(ty, ext, 1))
                   IN Attach(enc, SetToSeq({s \in RefSlots(ty, enc, 0) : s[2].k = "ref"}), 0)
 
+(* ---------------------- the accessors built on the offset program ---------------------- *)
+(* one record per generated function: [p, kind, ops, c, w]                                   *)
+(*   getp    returns obj + offset                                                            *)
+(*   get/set read / write a scalar of c bytes at obj + offset                                *)
+(*   len     c * product of the header words w (8-byte words after obj + offset); a static   *)
+(*           shape has no offset program at all (ops = <<>>, the constant is returned)       *)
+(*   typeid  the word at obj + offset, the program ends with `add 8` (member index)          *)
+RECURSIVE EndType(_, _)
+EndType(t, p) == IF p = <<>> THEN t
+                 ELSE IF IsF(Head(p)) THEN EndType(t.f[Head(p).f], Tail(p))
+                 ELSE IF IsI(Head(p)) THEN EndType(t.it, Tail(p)) ELSE EndType(t.to, Tail(p))
+Acc(p, kind, ops, c, w) == [p |-> p, kind |-> kind, ops |-> ops, c |-> c, w |-> w]
+StaticFactor(t) == LET RECURSIVE F(_)
+                       F(n) == IF n = 0 THEN 1 ELSE F(n - 1) * (IF t.sh[n] < 0 THEN 1 ELSE t.sh[n])
+                   IN F(Len(t.sh))
+AccOf(t, p) ==
+  LET et == EndType(t, p)
+      g == Gen(t, p, 0, 0)
+  IN (IF et.k \in {"sc", "str", "struct", "arr", "uref"} THEN {Acc(p, "getp", g, 0, <<>>)} ELSE {})
+     \cup (IF et.k = "sc" THEN {Acc(p, "get", g, et.w, <<>>), Acc(p, "set", g, et.w, <<>>)} ELSE {})
+     \cup (IF et.k = "arr" THEN {IF NDyn(et) = 0 THEN Acc(p, "len", <<>>, StaticFactor(et), <<>>)
+                                  ELSE Acc(p, "len", g, StaticFactor(et), [n \in 1..NDyn(et) |-> n])} ELSE {})
+     \cup (IF et.k = "uref" THEN {Acc(p, "typeid", g \o <<Op("add", 8, <<>>, 0)>>, 0, <<>>)} ELSE {})
+AccResult(e, mem, a, idx) ==
+  LET off == Run(e.ops, mem, a, idx)
+      RECURSIVE PW(_)
+      PW(n) == IF n = 0 THEN 1 ELSE PW(n - 1) * I64(mem, off + 8 * e.w[n])
+  IN CASE e.kind = "getp" -> off
+       [] e.kind \in {"get", "set"} -> <<off, e.c>>
+       [] e.kind = "len" -> e.c * PW(Len(e.w))
+       [] e.kind = "typeid" -> I64(mem, off)
+AccExpected(kind, nv, mem) ==
+  CASE kind = "getp" -> nv.a
+    [] kind \in {"get", "set"} -> <<nv.a, nv.t.w>>
+    [] kind = "len" -> NItems(Shape(nv.t, mem, nv.a))
+    [] kind = "typeid" -> Decode(nv.t, mem, nv.a).tid
+AccRefines(t, mem, a) ==
+  \A p \in AllPaths(t, mem, a) : \A e \in AccOf(t, Shape0(p)) : AccResult(e, mem, a, Idxs(p)) = AccExpected(e.kind, Nav(t, mem, a, p), mem)
+(* a GIVEN accessor table (parsed from real source) against the format: the (path, kind) pairs that disagree *)
+AccDisagree(t, mem, a, table) ==
+  {<<p, e.kind>> : p \in AllPaths(t, mem, a), e \in table} \cap
+  {x \in AllPaths(t, mem, a) \X {"getp", "get", "set", "len", "typeid"} :
+      \E e \in table : e.p = Shape0(x[1]) /\ e.kind = x[2] /\ AccResult(e, mem, a, Idxs(x[1])) # AccExpected(e.kind, Nav(t, mem, a, x[1]), mem)}
+
 (* the refinement statement for one image *)
 Refines(t, mem, a) == \A p \in AllPaths(t, mem, a) : Run(Gen(t, p, 0, 0), mem, a, Idxs(p)) = Nav(t, mem, a, p).a
 (* first path on which a GIVEN program table (type path -> program) disagrees with the format; <<>> wrapped in a record *)
